@@ -42,6 +42,9 @@ Grow(S) ==
            \cup {NSetOp(a, b, <<43, 61>>, c) : a \in {Leaf}, b \in {Leaf}, c \in S}
            \cup {NDel(a, b) : a \in S, b \in S}
            \cup {NCall("push", <<a, b>>) : a \in S, b \in S}
+\* shapes added at the outermost level only (not nested further):
+ExtraShapes ==
+         {}
            \* the same probe (t5: always truthy, may be called any number of times) written at several operand positions
            \cup {NIf(Rep, Rep, a) : a \in {Leaf}} \cup {NIf(a, Rep, Rep) : a \in {Leaf}} \cup {NIf(Rep, a, Rep) : a \in {Leaf}}
            \cup {NBin(o, Rep, Rep) : o \in {"and", "or", "+", "=="}} \cup {NList(<<Rep, Rep, a>>) : a \in {Leaf}}
@@ -69,7 +72,7 @@ LabelSeq(ch, i, k, acc) ==
 Outcomes == {"one", "zero", "list", "raise"}
 \* One constant holding every table.  TLC evaluates constant definitions eagerly at start-up and, while
 \* doing so, re-evaluates any other constant a definition refers to; a single LET keeps that linear.
-Model == LET seq == SetToSeq({s \in Shapes(MaxDepth) : Leaves(s) <= MaxLeaves})
+Model == LET seq == SetToSeq({s \in Shapes(MaxDepth) \cup ExtraShapes : Leaves(s) <= MaxLeaves /\ (Leaves(s) >= 1 \/ s \in ExtraShapes)})
              n == Len(seq)
              tree == [i \in 1..n |-> Number(NCode(<<Label(seq[i], 1).t>>), 1).t]
              lv == [i \in 1..n |-> Leaves(seq[i])]
